@@ -18,7 +18,10 @@ IpsCalls(r) == [j \in 1..Len(r.recs) |-> <<r.recs[j].off + r.delta, r.recs[j].da
 
 Clause(r) ==
     IF ~r.base.ok THEN "base program failed (generator error)"
-    ELSE IF r.malformed THEN (IF r.with.ok THEN "malformed patch was accepted" ELSE "ok")
+    ELSE IF r.malformed THEN (IF r.with.ok THEN "malformed patch was accepted"
+                              \* r.fe: did Program.assemble / assemble_as_patch report success on the same source
+                              ELSE IF \E j \in 1..Len(r.fe) : r.fe[j] THEN "malformed patch was accepted by a file entry point"
+                              ELSE "ok")
     ELSE IF ~r.with.ok THEN "well-formed patch was rejected"
     ELSE LET fb == Flat(r.base.calls) fw == Flat(r.with.calls) fi == Flat(IpsCalls(r)) IN
          IF r.with.labels # r.base.labels THEN "labels of the surrounding program changed"
